@@ -567,6 +567,54 @@ def check_2d_rewrite(ctx, R="C06.heading2d"):
         ctx.finding(R, fn, "heading rewrite name", f"OrientedPoint2D._prepareSpecifiers tests {lits}, but veneer.With names the specifier `{produced}`: `with heading` is no longer rewritten to `facing`")
 
 
+def check_cycle_detection(ctx, R="C06.cycles"):
+    ctx.rule(
+        R,
+        "cycle detection of the dependency sort: the depth-first search of _resolveSpecifiers marks a specifier 'in progress' before it "
+        "visits its dependencies, raises SpecifierError when it meets an in-progress specifier, and EVERY recursive call is unconditional "
+        "with respect to that mark -- a call guarded by `state == not visited` silently skips the in-progress specifier, so a dependency "
+        "cycle (e.g. through a modifying specifier) builds an object in one written order and raises in another",
+    )
+    model = ctx.model
+    fn = model.func(OT, "Constructible._resolveSpecifiers")
+    dfs = [f for f in ast.walk(fn) if isinstance(f, ast.FunctionDef) and f is not fn and any(isinstance(c, ast.Call) and isinstance(c.func, ast.Name) and c.func.id == f.name for c in ast.walk(f))]
+    if len(dfs) != 1:
+        raise AnalysisError("shape not recognised: recursive dependency search of _resolveSpecifiers")
+    d = dfs[0]
+    sp = d.args.args[0].arg
+    # the state attribute: the one assigned on the parameter inside the search
+    marks = [a for a in walk_local(d) if isinstance(a, ast.Assign) and isinstance(a.targets[0], ast.Attribute) and unparse(a.targets[0].value) == sp and isinstance(a.value, ast.Constant)]
+    if len({a.targets[0].attr for a in marks}) != 1 or len(marks) < 2:
+        raise AnalysisError("shape not recognised: visit marks of the dependency search")
+    attr = marks[0].targets[0].attr
+    in_progress = min(marks, key=lambda a: a.lineno)
+    done = max(marks, key=lambda a: a.lineno)
+    rec = [c for c in walk_local(d) if isinstance(c, ast.Call) and isinstance(c.func, ast.Name) and c.func.id == d.name]
+    ctx.floor(R, len(rec), 2, "recursive calls of the dependency search")
+    # entry checks
+    raises = [r for r in walk_local(d) if isinstance(r, ast.Raise) and any(lib.ctext(t) == lib.ctext_of(f"{sp}.{attr} == {in_progress.value.value}") and p for t, p in lib.path_conditions(r, d))]
+    if raises and all(r.lineno < in_progress.lineno for r in raises):
+        ctx.ok(R, raises[0], "meeting a specifier that is being processed raises the cyclic-dependency error")
+    else:
+        ctx.finding(R, d, "no error for an in-progress specifier", f"the dependency search no longer raises when it meets a specifier whose {attr} is {in_progress.value.value} (in progress): cyclic dependencies are not reported")
+    for c in rec:
+        if c.lineno < in_progress.lineno or c.lineno > done.lineno:
+            ctx.finding(R, c, "recursion outside the in-progress window", f"`{unparse(c)}` is not between the in-progress and the finished mark")
+            continue
+        # tests made after the in-progress mark (the entry checks on the parameter itself precede it)
+        g = [t for t, p in lib.path_conditions(c, d) if attr in unparse(t) and getattr(t, "lineno", 0) > in_progress.lineno]
+        if g:
+            ctx.finding(
+                R,
+                c,
+                f"recursive call guarded by {attr}",
+                f"_resolveSpecifiers: the recursive call `{unparse(c)}` is made only when `{unparse(g[0])}`: a specifier that is still being processed is skipped instead of being reported, so "
+                f"a dependency cycle through this edge is accepted in some written orders and rejected in others",
+            )
+        else:
+            ctx.ok(R, c, f"`{unparse(c)}` always recurses; the callee decides from the mark")
+
+
 def check_default_deps(ctx, R="C06.defaults"):
     ctx.rule(
         R,
@@ -614,6 +662,7 @@ def check_default_deps(ctx, R="C06.defaults"):
 
 
 def check(ctx):
+    check_cycle_detection(ctx)
     check_default_deps(ctx)
     check_docs_table(ctx)
     check_deps_cover(ctx)
